@@ -755,6 +755,13 @@ func runDagCase(c *DagCase, d *Driver) *DagResult {
 			switch (int64(t.ID) + r.c.CtlSeed%4) % 4 {
 			case 0:
 				r.taskErrs[t.ID] = fmt.Errorf("task-%d-failed", t.ID)
+				// ... or the error value of a nested graph: an *Errors with no entries, or with one
+				switch (r.c.CtlSeed / 4) % 5 {
+				case 0:
+					r.taskErrs[t.ID] = &dag.Errors{Msg: fmt.Sprintf("nested-%d", t.ID)}
+				case 1:
+					r.taskErrs[t.ID] = &dag.Errors{Msg: fmt.Sprintf("nested-%d", t.ID), Errors: []error{fmt.Errorf("inner-%d", t.ID)}}
+				}
 			case 1:
 				r.taskErrs[t.ID] = fmt.Errorf("task-%d-failed: %w", t.ID, context.Canceled)
 			case 2:
